@@ -44,7 +44,7 @@ R.contract(M + "_parse_args", trusted=True, types={"argv": ARGS}, returns=ARGS, 
 # anonymize_files as seen from main: the binding of its parameters is recorded (ghost call record) and it may
 # refuse with ValueError.  This facade is what the verified contract anonymize_files@impl (contracts/files.py)
 # implies where the option values are well formed; for malformed values it only says ValueError may escape.
-R.contract(MF + "anonymize_files", trusted=True, record=True, raises={"ValueError": None},
+R.contract(MF + "anonymize_files", trusted=True, record=True, raises={"ValueError": None, "OSError": None},
            types={"input_path": STR, "output_path": STR, "anon_pwd": BOOL, "anon_ip": BOOL, "salt": Opt(STR),
                   "dumpfile": Opt(STR), "sensitive_words": Opt(LS), "undo_ip_anon": BOOL, "as_numbers": Opt(LS),
                   "reserved_words": Opt(LS), "preserve_prefixes": Opt(LS), "preserve_networks": Opt(LS),
@@ -60,11 +60,11 @@ RFC1918 = "('10.0.0.0/8', '172.16.0.0/12', '192.168.0.0/16')"
 R.contract(M + "main",
            types={"argv": ARGS}, returns=NONE, modifies=["log"],
            # contradictory or unusable combinations are rejected ...
-           raises={"ValueError": None},
+           raises={"ValueError": None, "OSError": None},
            # ... before anything is written (anonymize_files is the only writer): a rejected combination never
            # reaches anonymize_files, and a ValueError that is not such a rejection comes out of anonymize_files
            raises_ensures=["implies(%s, not called('anonymize_files'))" % REJECT,
-                           "called('anonymize_files') or (%s)" % REJECT],
+                           "called('anonymize_files') or ((%s) and raised('ValueError'))" % REJECT],
            ensures=[
                "not (%s)" % REJECT,
                "implies(not (%s), not called('anonymize_files'))" % ANYOPT,
@@ -129,3 +129,16 @@ def gen_parse_args_decl(V, repo):
     for opt in ("--input", "--output"):
         k = found.get(opt, {})
         emit_bool(V, "_parse_args#%s.required" % opt.strip("-"), isinstance(k.get("required"), ast.Constant) and k["required"].value is True)
+
+
+def gen_facade_covers_impl(V, repo):
+    """the facade of anonymize_files that `main` is verified against must be implied by the verified contract
+    anonymize_files@impl: same parameters, no stronger postcondition, every exception and written location of the
+    implementation contract allowed by the facade"""
+    from .regex_obl import emit_bool
+    fac, imp = R.contracts[MF + "anonymize_files"], R.contracts[MF + "anonymize_files@impl"]
+    emit_bool(V, "anonymize_files#facade.parameters_as_impl", dict(fac.types) == dict(imp.types))
+    emit_bool(V, "anonymize_files#facade.raises_cover_impl",
+              set(imp.raises) <= set(fac.raises) and all(fac.raises[e] is None for e in imp.raises))
+    emit_bool(V, "anonymize_files#facade.modifies_cover_impl", set(imp.modifies) <= set(fac.modifies))
+    emit_bool(V, "anonymize_files#facade.ensures_nothing", list(fac.ensures) == ["True"] and not fac.raises_ensures)
